@@ -1804,9 +1804,10 @@ def _readsegment(
             result += before
             return after, result
 
-        buf = _recv(sock, RECV_SIZE)
-        if not buf:
+        data = _recv(sock, RECV_SIZE)
+        if not data:
             raise MemcacheUnexpectedCloseError()
+        buf += data
 
 
 def _recv(sock: socket.socket, size: int) -> bytes:
